@@ -224,6 +224,30 @@ func main() {
 			}
 		}
 		fmt.Fprintf(stdout, "ons: cases=%d nontrivial=%d disagreements=%d monitor=%v counters=%v\n", res.Evaluations, res.DistinctNontrivial, res.DisagreementCount, res.MonitorHitCount, res.Counters)
+	case "bidm":
+		fs := flag.NewFlagSet("bidm", flag.ExitOnError)
+		driver := fs.String("driver", "", "path to olpdriver")
+		seed := fs.Uint64("seed", 1, "seed")
+		hist := fs.Int("histories", 40, "histories")
+		blocks := fs.Int("blocks", 16, "blocks per history")
+		maxtx := fs.Int("maxtxs", 6, "max txs per block")
+		out := fs.String("out", "", "result json")
+		debug := fs.Bool("debug", false, "print every op and log")
+		fs.Parse(os.Args[2:])
+		stdout := apph.SilenceAppLogs()
+		res, err := apph.RunBidm(apph.BidmOptions{Driver: *driver, Seed: *seed, Histories: *hist, Blocks: *blocks, MaxTxs: *maxtx, Debug: *debug})
+		apph.Cleanup()
+		if err != nil {
+			fmt.Fprintln(stdout, "olh bidm:", err)
+			os.Exit(2)
+		}
+		if *out != "" {
+			if err := kv.WriteResult(*out, res); err != nil {
+				fmt.Fprintln(stdout, err)
+				os.Exit(2)
+			}
+		}
+		fmt.Fprintf(stdout, "bidm: cases=%d nontrivial=%d disagreements=%d monitor=%v counters=%v\n", res.Evaluations, res.DistinctNontrivial, res.DisagreementCount, res.MonitorHitCount, res.Counters)
 	case "twin", "dropfailed", "inject", "crash":
 		fs := flag.NewFlagSet(os.Args[1], flag.ExitOnError)
 		_ = fs.String("driver", "", "path to olpdriver")
